@@ -32,7 +32,7 @@ pub fn sized_engine(shape: &str, prop: &str, max_ops: usize) -> Box<dyn Engine> 
     }
 }
 
-pub const THIN_SHAPES: [&str; 4] = ["8b/8", "1/16", "16/1", "4/4"];
+pub const THIN_SHAPES: [&str; 5] = ["8b/8", "1/16", "16/1", "4/4", "8b/z"];
 
 pub fn thin_engine(shape: &str, prop: &'static str, max_ops: usize) -> Box<dyn Engine> {
     use hist_thin::ThinEngine;
@@ -40,6 +40,7 @@ pub fn thin_engine(shape: &str, prop: &'static str, max_ops: usize) -> Box<dyn E
         "1/16" => Box::new(ThinEngine::<Tok1, Tok16>::new(prop, max_ops)),
         "16/1" => Box::new(ThinEngine::<Tok16, Tok1>::new(prop, max_ops)),
         "4/4" => Box::new(ThinEngine::<Tok4, Tok4>::new(prop, max_ops)),
+        "8b/z" => Box::new(ThinEngine::<Tok8b, TokZ<2>>::new(prop, max_ops)),
         _ => Box::new(ThinEngine::<Tok8b, Tok8>::new(prop, max_ops)),
     }
 }
